@@ -30,8 +30,8 @@ def decSort : Val → Option (Option SortSpec)
   | _ => none
 
 def decOp : Val → Option CurOp
-  | .arr [.str "skip", .int n] => some (.skip n)
-  | .arr [.str "limit", .int n] => some (.limit n)
+  | .arr [.str "skip", v] => (stageCount v).map .skip       -- an int, or a whole-number double
+  | .arr [.str "limit", v] => (stageCount v).map .limit
   | .arr [.str "sortk", .str k, d] => (optInt d).map (.sortKey k)
   | .arr [.str "sortl", .arr xs] => (decSpec xs).map .sortList
   | .arr [.str "slice", a, b] => do
@@ -51,8 +51,8 @@ def decList {α} (f : Val → Option α) : List Val → Option (List α)
 
 def decStage : Val → Option Stage
   | .arr [.str "sort", .arr xs] => (decSpec xs).map .sort
-  | .arr [.str "skip", .int n] => some (.skip n)
-  | .arr [.str "limit", .int n] => some (.limit n)
+  | .arr [.str "skip", v] => (stageCount v).map .skip       -- an int, or a whole-number double
+  | .arr [.str "limit", v] => (stageCount v).map .limit
   | _ => none
 
 def decStoreOp : Val → Option StoreOp
